@@ -11,11 +11,21 @@ PROP = dict(
         dict(module="FcgiUpstreams", cfg=dict(thorough="FcgiUpstreamsLive.cfg"), workers=4, timeout=dict(thorough=600)),
         dict(module="FcgiUpstreams", cfg=dict(quick="FcgiUpstreams_quick.cfg", thorough="FcgiUpstreams_thorough.cfg"), emit=True, workers=8, coverage=True,
              timeout=dict(quick=300, thorough=900)),
+        # extension: the `websocket` directive - upgrade, spawned command, the two pumps, termination (WsBridge.tla, notes/WsBridge.md)
+        dict(module="WsBridge", cfg=dict(thorough="WsBridgeFine_thorough.cfg"), workers=8, coverage=True, timeout=dict(thorough=600),
+             coverage_ignore=["SrvWaitDone", "SrvReap", "ChildLeave"]),   # the design as found (FixKill = FALSE, see WsBridge_asfound.cfg); ChildLeave: second half of the sync-grain step pwriteexit
+        dict(module="WsBridge", cfg=dict(thorough="WsBridgeLive.cfg"), workers=8, timeout=dict(thorough=600)),
+        dict(module="WsBridge", cfg=dict(quick="WsBridge_quick.cfg", thorough="WsBridge_thorough.cfg"), emit=True, workers=8,
+             timeout=dict(quick=300, thorough=900)),
+        dict(module="WsBridgeSetup", cfg=dict(quick="WsBridgeSetup_quick.cfg", thorough="WsBridgeSetup_thorough.cfg"), emit=True, workers=4, coverage=True,
+             timeout=dict(quick=300, thorough=600)),
     ],
     go=[dict(pkg="c13", test="TestC13", timeout=dict(quick=600, thorough=3000)),
-        dict(pkg="cx13upstreams", test="TestCx13Upstreams", timeout=dict(quick=600, thorough=1800))],
+        dict(pkg="cx13upstreams", test="TestCx13Upstreams", timeout=dict(quick=600, thorough=1800)),
+        dict(pkg="cx13wsbridge", test="TestCx13WsBridge", timeout=dict(quick=600, thorough=1800))],
     traces=[dict(name="fcgiwire", module="FastCGITrace", cfg="FastCGITrace.cfg", timeout=900),
-            dict(name="fcgiups", module="FcgiUpstreamsTrace", cfg="FcgiUpstreamsTrace.cfg", timeout=900)],
+            dict(name="fcgiups", module="FcgiUpstreamsTrace", cfg="FcgiUpstreamsTrace.cfg", timeout=900),
+            dict(name="wsbridge", module="WsBridgeTrace", cfg="WsBridgeTrace.cfg", timeout=900)],
     exhaustive=dict(quick=True, thorough=True),
     technique="TLA+ specs FastCGI.tla / FcgiRoute.tla model-checked by TLC; record traces of the real FastCGI client validated by TLC against FastCGITrace.tla; response framings and routing table replayed against the real client and running casket instances",
     level_text="TLC explores the code-shaped model of FCGIClient.Do (writePairs thresholds, bufio/streamWriter record splitting) for every sequence of boundary-sized name/value pairs and body lengths and checks the wire-level invariants a conforming responder needs; the same invariants are then checked by TLC on the record headers a byte-level responder captured from the real client for every one of those cases (trace validation), while the decoded pairs and stdin bytes are compared with what was sent. Every responder framing TLC enumerates (record splits, stderr interleavings, terminators, padding, Status present/absent) is played to the real client and the client view compared with the model; the routing/split decision table of FcgiRoute.tla is replayed against casket instances; an env battery runs through casket against the scripted responder and Go's net/http/fcgi child.",
